@@ -82,7 +82,8 @@ CLAIMED = {
              "transformer chain in physical-value form: _calc_r_x_from_dataframe (r, |z|, sign of x), _calc_y_from_dataframe (g, b), "
              "_calc_nominal_ratio_from_dataframe, _calc_tap_from_dataframe for Ratio (longitudinal), Ideal (step angle) and missing tap "
              "changers on both sides with and without angles; thorough tier: _wye_delta (T model) has the admittance matrix of the T "
-             "circuit.",
+             "circuit; (e) bus injection at the slack bus: _get_numba_functions selects the result routine that leaves shunt powers "
+             "out of the slack power only for networks without any shunt admittance.",
         note="Assumed: A-LOOKUP (block layout of ppc['branch']), numpy element-wise semantics, reals for floats, sin/cos/sqrt as "
              "uninterpreted functions with sin^2+cos^2=1, sqrt(x)^2=x. Not decided: cross regulators with tap_step_degree, ideal "
              "shifters given by tap_step_percent, tap tables (C31), trafo3w star conversion, TDPF, the Newton solver itself, "
@@ -92,7 +93,10 @@ CLAIMED = {
              "lemma on the admittances returned by the real branch_vectors: for all complex terminal voltages, r >= 0, g >= 0, any tap "
              "ratio and shift the active loss equals a sum-of-squares certificate and is >= 0; DC power flow (_run_dc_pf, real text): "
              "PT = -PF, QF = QT = 0, PF = (Bf Va + Pfinj) baseMVA, and the slack dispatch divides the bus mismatch by the number of "
-             "reference generators at that bus (population obligation on the bincount argument).",
+             "reference generators at that bus (population obligation on the bincount argument); AC networks with one machine: the "
+             "real pf_solution_single_slack reports generation = total demand + total branch losses (P and Q, sums over arbitrarily "
+             "many buses and branches) under its precondition (no shunt admittance at any bus), and _get_numba_functions establishes "
+             "that precondition whenever it selects the routine.",
         note="Assumed: sparse products are functions of their operands; bincount counts occurrences; A-LOOKUP; reals for floats. Not "
              "decided: global balance for AC (sum of nodal balances: Newton convergence, C01), branches with asymmetric series part."),
     "C31": dict(
@@ -152,8 +156,9 @@ CLAIMED = {
              "for sgen, load, storage; _build_pp_gen with _enforce_controllable_vm_pu_p_mw; write_pq_results_to_element): the box handed "
              "to the solver is exactly the declared box in the element's own sign convention (PMIN <= PG <= PMAX <=> min_p - delta <= "
              "sign*PG <= max_p + delta, same for Q, for every point), setpoints PG/QG = sign * p/q * scaling, the result written back "
-             "is sign * PG of the element's own row; gens: PG, VG, Q box, non-controllable gens fixed at p_mw and vm_pu; only the "
-             "element's block of ppc['gen'] is written.",
+             "is sign * PG of the element's own row; gens: PG, VG, Q box, non-controllable gens fixed at p_mw and vm_pu; the voltage "
+             "range of a gen bus is the intersection of the bus limits and the gen's own min_vm_pu / max_vm_pu (own bus, own values); "
+             "only the element's block of ppc['gen'] is written.",
         note="Assumed: A-SOLVE (the interior point solver returns a point of the box it is given), A-LOOKUP (block layout of "
              "ppc['gen']). Not decided: solver, branch loading / dcline / plain bus voltage constraints, DC OPF, power flow replay of "
              "the dispatch."),
@@ -165,7 +170,9 @@ CLAIMED = {
              "bus. Shunts / wards / xwards (tables of any length): _calc_shunts_and_add_on_ppc gives every node the sum of "
              "p_mw * step * (vn_bus / vn_shunt)^2 (missing vn_kv = bus voltage; pz_mw for wards) of the in-service elements at "
              "that node, stored once per node; _get_shunt_results reports vm^2 times exactly that model power per element (added to "
-             "the constant-power part for wards) and adds the same powers to the bus sums grouped by the element's own bus. The "
+             "the constant-power part for wards) and adds the same powers to the bus sums grouped by the element's own bus. "
+             "_update_q reports q = 0 for every machine that is not running (the Q-limit loop relies on it for the gens it has "
+             "switched off). The "
              "Q-limit enforcement loop is only a bounded stand-in (native power flows on two fixed networks incl. a two-round "
              "limiting cascade), labelled bounded.",
         note="Assumed: A-SOLVE (Newton keeps reference / PV voltages), A-LOOKUP, _sum_by_group (distinct keys with per-key sums). Not "
@@ -212,7 +219,9 @@ CLAIMED = {
              "_split_p_for_gens_at_same_bus the active powers of all machines at a reference bus add up to the bus power for every "
              "number of reference machines and PV gens and all slack weights; the real _calc_pq_elements_and_add_on_ppc writes bus "
              "ZIP coefficients with PD_bus * ci_bus == sum p_l * ci_l and PD_bus * cz_bus == sum p_l * cz_l (same for q), so that the "
-             "voltage dependent bus load is the sum of the loads' own ZIP terms for every voltage.",
+             "voltage dependent bus load is the sum of the loads' own ZIP terms for every voltage; _get_numba_functions selects the fast "
+             "result routine pf_solution_single_slack (slack power = loads + branch losses) only when its precondition holds: one "
+             "machine, no voltage dependent loads, no distributed slack and GS == BS == 0 at every bus.",
         note="Assumed: linearity of finite sums (pyvc.sigma), _sum_by_group sums per bus, intersect1d / setdiff1d. Not decided: the nodal "
              "balance at ordinary buses (element result sums against branch flows, Newton mismatch), reactive split (_update_q), "
              "dcline terminals, FACTS, loads whose powers cancel at a bus (no per-bus coefficient can represent them)."),
